@@ -145,6 +145,9 @@ func (s *Store) LinkSystem() *ipld.LinkSystem {
 				s.failed = append(s.failed, cl.Cid)
 				return nil, s.injErr(cl.Cid)
 			}
+		} else if len(s.missing) > 0 && s.missing[key(cl.Cid)] {
+			// concurrent scenarios: no logging (the read path must not synchronise goroutines), the set is read-only
+			return nil, s.injErr(cl.Cid)
 		}
 		b, ok := s.blocks[key(cl.Cid)]
 		if !ok {
